@@ -211,6 +211,12 @@ func handleUIDStore(deps ServerDeps, conn net.Conn, tag string, parts []string, 
 		return
 	}
 
+	// A mailbox opened with EXAMINE is read-only for this session
+	if state.ReadOnly {
+		deps.SendResponse(conn, fmt.Sprintf("%s NO [READ-ONLY] Mailbox is read-only", tag))
+		return
+	}
+
 	// Get appropriate database (user or role mailbox)
 	targetDB, _, err := deps.GetSelectedDB(state)
 	if err != nil {
@@ -504,6 +510,12 @@ func flagSetToString(flagSet map[string]bool) string {
 func handleUIDExpunge(deps ServerDeps, conn net.Conn, tag string, parts []string, state *models.ClientState) {
 	if len(parts) < 4 {
 		deps.SendResponse(conn, fmt.Sprintf("%s BAD UID EXPUNGE requires UID sequence", tag))
+		return
+	}
+
+	// A mailbox opened with EXAMINE is read-only for this session
+	if state.ReadOnly {
+		deps.SendResponse(conn, fmt.Sprintf("%s NO [READ-ONLY] Mailbox is read-only", tag))
 		return
 	}
 
